@@ -5,6 +5,7 @@ import Driver.DS.Main
 import Driver.Layout.Main
 import Driver.Misc.Main
 import Driver.Conc.Main
+import Driver.Immix.Main
 /-!
 # `mmtk_model`: the executable model behind the line protocol
 
@@ -21,6 +22,7 @@ structure St where
   layout : Driver.Layout.St := {}
   misc : Driver.Misc.St := {}
   conc : Driver.Conc.St := {}
+  immix : Driver.Immix.St := {}
 
 def step (st : St) (line : String) : St × Option String :=
   match tokens line with
@@ -50,6 +52,9 @@ def step (st : St) (line : String) : St × Option String :=
     | none =>
     match Driver.Conc.step st.conc toks with
     | some (s, o) => ({ st with conc := s }, some o)
+    | none =>
+    match Driver.Immix.step st.immix toks with
+    | some (s, o) => ({ st with immix := s }, some o)
     | none => (st, some "bad-op")
 
 partial def loop (h : IO.FS.Stream) (out : IO.FS.Stream) (st : St) : IO Unit := do
